@@ -3,12 +3,12 @@ from propcfg.C01 import NODE_TB
 
 CFG = {
     "props": "Props/C07.v",
-    "corr": ["Corr/NodeCorr.v", "Corr/ReshareCorr.v"],
-    "engines": [("reshare", []), ("node", [])],
+    "corr": ["Corr/NodeCorr.v", "Corr/ReshareCorr.v", "Corr/NetCorr.v"],
+    "engines": [("reshare", []), ("node", []), ("net", [])],
     "axioms": [],
     "trusted": NODE_TB + ["premise history_ok of C07_identity: each ceremony's output keeps the distributed public key (kyber resharing fed with the old share and public coefficients) and the scheme (copied by the leader's proposal); validateGroupTransition itself compares neither (C07_scheme_unchecked)",
                            "reshare engine: real validateGroupTransition through an add-only hook on generated group pairs"],
     "assumptions": ["kyber's resharing mathematics is not modelled", "the leaver's StopAt timing is not modelled", "the daemon-level wiring (transitionToNext/joinNetwork/leaveNetwork) is modelled by ETransition / ERestart / EStop events of the node model"],
-    "level_text": "C07_identity: over ANY history of resharing attempts (outputs of any shape, invalid outputs, failed/aborted/timed-out ceremonies) the pinned chain information (period, genesis time, public key, seed, canonical id, scheme) is unchanged, given the stated key/scheme premise; C07_bad_output_ignored; C07_continuity (for every event list including transitions the chain grows by one verified linked round at a time); C07_switch_exact (the vault switches exactly when a stored round reaches the target, never otherwise); C07_failed_keeps_old; C07_only_live_shares (after the switch only partials verifying under the new polynomial from indices of the new group are accepted). Tied to the code by the reshare engine (validateGroupTransition) and the node engine (real Handler with TransitionNewGroup to groups of other sizes/thresholds, partials signed with shares of both epochs).",
+    "level_text": "C07_identity: over ANY history of resharing attempts (outputs of any shape, invalid outputs, failed/aborted/timed-out ceremonies) the pinned chain information (period, genesis time, public key, seed, canonical id, scheme) is unchanged, given the stated key/scheme premise; C07_bad_output_ignored; C07_continuity (for every event list including transitions the chain grows by one verified linked round at a time); C07_switch_exact (the vault switches exactly when a stored round reaches the target, never otherwise); C07_failed_keeps_old; C07_only_live_shares (after the switch only partials verifying under the new polynomial from indices of the new group are accepted). Tied to the code by the reshare engine (validateGroupTransition) and the node engine (real Handler with TransitionNewGroup to groups of other sizes/thresholds, partials signed with shares of both epochs). C07_system_continuity (Model/Net.v with ETransition): in every reachable state of the composed system, across any number of resharings handed to any nodes at any time, every honest chain is one valid chain from the one genesis and every live/pending group carries the threshold of its own sharing; with C02_system_agree (all honest chains agree whichever nodes have switched) and C03_system_threshold (every beacon contributed by a threshold of ONE sharing, never a mix of epochs). Tied to the code by the system engine: all real nodes are handed the same new epoch (other threshold, other adversarial indices), the adversary keeps signing with stale and new shares.",
     "level_note": "Kernel-checked, no axioms. Key preservation is kyber's contract (premise); chain-hash equality follows from C17 since its preimage is exactly the chain_info fields; transport and real-time leave are not modelled.",
 }
